@@ -130,7 +130,7 @@ class BinningBase:
         result: Dict[str, Any] = {
             "adaptive": self._adaptive,
             "binning_type": type(self).__name__,
-            "includes_right_edge": self._includes_right_edge,
+            "includes_right_edge": bool(self._includes_right_edge),
         }
         self._update_dict(result)
         return result
